@@ -25,6 +25,12 @@ let handler = function
   | L [I 7; g] -> of_list (of_pair of_triple of_epi) (role_alignments (to_graph g))
   | L [I 8; m; t] -> of_bool (wf_layout_tree (to_model m) (to_tree t))
   | L [I 9; m; t] -> of_outcome of_graph (reading_as_graph (to_model m) (to_tree t))
+  | L [I 10; g; trs] ->
+      let g = to_graph g in
+      let trs = to_list to_triple trs in
+      L [of_list (of_opt of_atom) (node_contexts g);
+         of_list (fun t -> of_opt of_atom (get_pushed_variable g t)) trs;
+         of_list (fun t -> of_bool (appears_inverted g t)) trs]
   | _ -> failwith "unknown command"
 
 let () = serve handler
